@@ -160,6 +160,7 @@ def classify(t, r) -> dict:
                 if d:
                     sig["patch_defect"] = d["defect"]
                     sig["patch_cat"] = d.get("cat")
+                    sig["patch_at_file_start"] = d.get("at_file_start")
                     break
         else:
             sig["patch_defect"] = None
